@@ -57,11 +57,21 @@ CYCLIC = {
  "structuredClone_cyclic": "const o = {{ k: [] }}; o.k.push(o); try {{ const c = structuredClone(o); LOG(c.k[0] === c); }} catch (e) {{ LOG(e.name); }}",
 }
 SIZES = {
- "repeat": 'LOG("x".repeat({s}).length);', "padStart": 'LOG("a".padStart({s}).length);', "newArray": "LOG(new Array({s}).length);", "arrayFill": "LOG(new Array({s}).fill(0).length);",
+ "repeat": 'LOG("x".repeat({s}).length);', "repeatWide": 'LOG("abcdefgh".repeat({s}).length);', "repeatLong": 'LOG("ab".repeat(2048).repeat({s}).length);', "padEndWide": 'LOG("a".padEnd({s}, "xyz").length);', "padStart": 'LOG("a".padStart({s}).length);', "newArray": "LOG(new Array({s}).length);", "arrayFill": "LOG(new Array({s}).fill(0).length);",
  "arrayFrom": "LOG(Array.from({{ length: {s} }}).length);", "setLength": "const a = []; a.length = {s}; LOG(a.length);", "join": 'LOG(new Array({s}).join("x").length);',
  "stringConcatLoop": 'let s = "ab"; for (let i = 0; i < 40; i++) s = s + s; LOG(s.length);', "toFixed": "LOG((1.5).toFixed({s}));", "arrayIndex": "const a = []; a[{s}] = 1; LOG(a.length);",
 }
-SIZE_VALUES = ["2 ** 32 - 1", "2 ** 32", "2 ** 53", "1e10", "-1", "Infinity", "NaN"]
+SIZE_VALUES = ["2 ** 32 - 1", "2 ** 32", "2 ** 53", "1e10", "-1", "Infinity", "NaN", "2 ** 62", "2 ** 63", "2 ** 64", "1e300"]
+# programs that never end, one per loop shape: the host must get control back after every step (status HOST-STOPPED, never HANG)
+ENDLESS = {
+ "for_empty_stmt": "for (;;);", "while_empty_stmt": "while (true);", "do_empty_stmt": "do ; while (true);", "for_empty_block": "for (;;) {}", "while_one": "while (1) {}",
+ "for_continue": "for (;;) { continue; }", "labelled_continue": "L: for (;;) { continue L; }", "nested_labelled": "A: for (;;) { for (;;) { continue A; } }",
+ "counting": "let i = 0; while (true) i++;", "for_no_update": "for (let i = 0; ; ) { i = 1 - i; }", "in_function": "(function f() { for (;;); })();", "in_arrow": "(() => { while (true); })();",
+ "in_switch": "switch (1) { default: for (;;); }", "in_try": "try { for (;;); } finally { }", "try_continue_finally": "for (;;) { try { continue; } finally { } }",
+ "for_of_endless_generator": "function* g() { while (true) yield 1; } for (const x of g());", "do_while_continue": "do { continue; } while (true);",
+ "if_chain_loop": "let k = 0; for (;;) { if (k) k = 0; else k = 1; }", "label_block_loop": "B: { for (;;) { if (false) break B; } }", "method_loop": "const o = { m() { for (;;); } }; o.m();",
+ "ctor_loop": "class C { constructor() { while (true); } } new C();", "getter_loop_statement": "let n = 0; for (;;) n = -n;",
+}
 
 
 def isolated(exe, src, timeout=25, mem_gb=3):
@@ -145,6 +155,18 @@ def main(tier):
             feat = {"kind": "recursion", "path_kind": kind, "status": st.split()[0]}
             if not known(feat):
                 c.report(feat, {"kind": kind, "depth": n, "result": r}, "recursion to depth %d through %s ends the process: %s" % (n, kind, st))
+    for kind, src in ENDLESS.items():
+        job = json.dumps({"id": 0, "source": HDR + src + "\n", "max_steps": 20000}) + "\n"
+        try:
+            pr = subprocess.run([exe, "stepbudget"], input=job, capture_output=True, text=True, timeout=30)
+            r = json.loads(pr.stdout.strip().splitlines()[-1]) if pr.returncode == 0 and pr.stdout.strip() else {"status": "ABORT rc=%d" % pr.returncode}
+        except subprocess.TimeoutExpired:
+            r = {"status": "HANG"}
+        iso += 1
+        if r.get("status") == "HOST-STOPPED": continue
+        feat = {"kind": "endless", "shape": kind, "status": r.get("status", "?").split()[0]}
+        if not known(feat):
+            c.report(feat, {"shape": kind, "source": src, "result": r}, "the never-ending program `%s` does not hand control back to the host: %s (expected HOST-STOPPED after 20000 steps)" % (src, r.get("status")))
     for kind, tpl in CYCLIC.items():
         r = isolated(exe, HDR + tpl.format(n=0) + "\n"); iso += 1
         st = r.get("status", "?")
